@@ -170,3 +170,25 @@ def run_utf8(rec, F):
             if c is not None and (c.path, frozenset()) not in seen:
                 work.append((c, frozenset(), why))
     rec.floor(R, "character-position sinks", nsink, 3)
+
+
+def run_error_not_dropped(rec, F):
+    R = rec.rule("F9.err-flow", "an error a native stores in a named local (Result / Option<Result> with LyError) reaches the native's return value on some path: an error recorded inside a callback (a comparator that raises) and never looked at again is silently swallowed")
+    n = 0
+    for fn in F.all_fns():
+        if fn.crate != "laythe_lib" or "::test" in fn.path or fn.kind == "Closure":
+            continue
+        for l, name in sorted(fn.dbg.items()):
+            ty = fn.locals[l]
+            if not (re.search(r"Option<.*Result<.*LyError", ty) or re.search(r"^core::result::Result<.*LyError>$", ty)):
+                continue
+            if l <= fn.argc:
+                continue
+            n += 1
+            t = sem.forward_taint(fn, {l})
+            ok = 0 in t
+            who = re.sub(r"^<.*::(\w+) as .*", r"\1", fn.path) if " as " in fn.path else fn.name
+            rec.inst(R, "%s: `%s` reaches the result" % (who, name), ok=ok, loc=fn.loc)
+            if not ok:
+                rec.finding(R, "F9.err-flow/%s/%s" % (who, name), "%s records an error in `%s` (inside a callback) but never returns it: the caller gets an ordinary result and the raised error disappears (e.g. list.sort with a comparator that raises hands back an unsorted copy)" % (who, name), loc=fn.loc, fn=fn.path)
+    rec.floor(R, "error-carrying locals in natives", n, 30)
